@@ -134,9 +134,19 @@ impl<const N: usize> Serialize for Df88591String<N> {
     where
         S: sd::Serializer,
     {
-        let value: ArrayString<N> = self.chars().collect();
-
-        serializer.serialize_str(&value)
+        // A Latin-1 character above 0x7f takes two bytes in UTF-8, so the text may need up to
+        // 2 * N bytes; it is streamed to the serializer instead of being collected into an
+        // N-byte buffer (which silently dropped the tail of strings with such characters).
+        struct Latin1Text<'a, const N: usize>(&'a Df88591String<N>);
+        impl<'a, const N: usize> core::fmt::Display for Latin1Text<'a, N> {
+            fn fmt(&self, f: &mut core::fmt::Formatter<'_>) -> core::fmt::Result {
+                for c in self.0.chars() {
+                    f.write_char(c)?;
+                }
+                Ok(())
+            }
+        }
+        serializer.collect_str(&Latin1Text(self))
     }
 }
 #[cfg(feature = "serde")]
